@@ -209,6 +209,15 @@ def run_exhaustive(a, ctx):
     except Reject:
         ctx.reject("no-instance:" + a)
         return
+    # same class, two records laid out alike: the second one carries one more
+    # forward site of the cutter, written over backbone letters in front of the
+    # structure (every other offset unchanged)
+    g = kits.cutter_geometry(kits.resolve_class(a))
+    shifted = dna.rot(wa, 14)
+    if len(g.site) <= 10:
+        extra = shifted[:2] + g.site + shifted[2 + len(g.site):]
+        run_body(mod, {"history": [[a, 0], [a, 1], [a, 0]], "words": [shifted, extra]}, ctx)
+        run_body(mod, {"history": [[a, 1], [a, 0], [a, 1]], "words": [shifted, extra]}, ctx)
     for b in kits.kit_class_names():
         try:
             wb = fixed_instance(b)
@@ -256,6 +265,8 @@ def _histories(draw):
         nrec += 1
     nq = draw(st.integers(2, 8))
     history = []
+    variant_pair = nrec >= 2 and words[-1] != words[0] and len(rec_classes) == nrec \
+        and rec_classes[-1] == rec_classes[0] and draw(st.booleans())
     for _ in range(nq):
         style = draw(st.integers(0, 9))
         if style <= 4:
@@ -286,6 +297,13 @@ def _histories(draw):
         if history and draw(st.integers(0, 5)) == 0:
             # the same class on the same nucleotides under another topology
             history.append([q[0], q[1], draw(st.sampled_from(["l", "r", "c"]))])
+    if variant_pair:
+        # the record and its one-more-site variant typed by the same class, in a drawn order
+        pair = [[rec_classes[0], 0], [rec_classes[0], nrec - 1]]
+        if draw(st.booleans()):
+            pair.reverse()
+        at = draw(st.integers(0, len(history)))
+        history = history[:at] + pair + history[at:]
     return {"history": history[:10], "words": words}
 
 
